@@ -2,6 +2,8 @@
 measurement, CH form)."""
 from __future__ import annotations
 
+import os
+
 import itertools
 
 import numpy as np
@@ -393,7 +395,11 @@ def obligations(tier):
     RE_DESC = 'StabilizerStateChForm.reindex(axes) for every permutation of 3 qubits from an ARBITRARY valid CH-form state (F, G, M, gamma, v, s symbolic under the representation invariant): every amplitude <y|reindexed> equals the amplitude of the correspondingly permuted basis state of the original (sharded over pairs of output basis states)'
     for pi_ in ((1, 3) if tier == 'quick' else range(6)):
         for sh, xs_ in enumerate([(0, 1), (2, 3), (4,), (5,), (6,), (7,)]):
-            obs.append(Obligation(f'chform.reindex.perm{pi_}.x' + ''.join(map(str, xs_)), lambda cx, pi_=pi_, xs_=xs_: reindex_body(cx, pi_=pi_, xs=xs_), twin=(lambda cx, pi_=pi_, xs_=xs_: reindex_body(cx, wrong=True, pi_=pi_, xs=xs_)) if (pi_ in (1, 3) and sh == 1) else None, opts={'weight': 30, 'vc_timeout_ms': 120000}, desc=RE_DESC))
+            # quick: the output basis states whose VCs z3 decides in seconds; x = 2, 3, 5, 7 need minutes per shard
+            # (integer/mod-4 reasoning over if-then-else sums) and are left to the thorough tier
+            if tier == 'quick' and xs_ not in ((0, 1), (4,), (6,)):
+                continue
+            obs.append(Obligation(f'chform.reindex.perm{pi_}.x' + ''.join(map(str, xs_)), lambda cx, pi_=pi_, xs_=xs_: reindex_body(cx, pi_=pi_, xs=xs_), twin=(lambda cx, pi_=pi_, xs_=xs_: reindex_body(cx, wrong=True, pi_=pi_, xs=xs_)) if (pi_ in (1, 3) and xs_ == (4,)) else None, opts={'weight': 30, 'vc_timeout_ms': 120000}, desc=RE_DESC))
 
     # ---- (e) single-qubit Clifford group: the solver enumerates all valid 1-qubit tableaux (24), pairs for binary laws
     def enum_tableau(cx, prefix):
@@ -527,7 +533,7 @@ def main(tier, seed=0, replay=None, only=None, procs=None):
         'exponent_box': [-4, 4],
         'act_on_gate_menu': 'X,Y,Z half-integer powers, H, CZ, CX, SWAP integer powers, S, ISWAP, shifted gates, PhasedXZ/PhasedX Cliffords, CY, YY, XX**0.5, ZZ**0.5, all 24 SingleQubitCliffordGate',
         'measure': 'n = 2 (quick) / 2, 3 (thorough), every qubit, arbitrary valid tableau, both coin outcomes',
-        'chform': 'reindex for 2 (quick: one swap and one 3-cycle) / all 6 (thorough) permutations of 3 qubits from an arbitrary valid CH-form state',
+        'chform': 'reindex for 2 (quick: one swap and one 3-cycle, output basis states 0, 1, 4, 6) / all 6 permutations and all 8 output basis states (thorough) of 3 qubits from an arbitrary valid CH-form state',
         'chform_gates': '7 (quick) / 16 (thorough) gates (Paulis, H, S, sqrt X/Y and inverses, CZ, CX, SWAP, shifted gates, global phase) on an arbitrary valid 2-qubit CH state, all placements, every amplitude incl. global phase',
         'group': 'all 24 one-qubit Clifford elements and all 576 ordered pairs (solver-enumerated, exhaustive)',
         'outside': ['two-qubit Clifford group (11520 elements) laws, CliffordTableau.then/inverse for n >= 2', 'CH-form measurement (project_Z), kron', 'n > 3'],
